@@ -103,8 +103,28 @@ func (g *condGen) parked() int {
 	return len(g.lastObs.Parked)
 }
 
+// an add may be issued through its retrying variant (AddReqAnyway / AddAnyway / AddCtrlAnyway) wherever it cannot
+// block for ever: on an unbounded list.  (On a bounded list a full queue makes it retry until a consumer makes room:
+// that is the business of the class anyway-full, which provides the consumer.)
+func (g *condGen) maybeAnyway(op cOp) cOp {
+	if g.kind == kSync || g.rnd.Intn(100) >= 25 {
+		return op
+	}
+	if op.Op == lAdd && g.run.cfg.ReqMax == 0 {
+		op.Anyway = true
+	}
+	if op.Op == lAddCtrl && g.kind == kMQ && g.run.cfg.CtrlMax == 0 {
+		op.Anyway = true
+	}
+	return op
+}
+
 // a random non-blocking call
 func (g *condGen) randOp(closeWeight int) cOp {
+	return g.maybeAnyway(g.randOp0(closeWeight))
+}
+
+func (g *condGen) randOp0(closeWeight int) cOp {
 	r := g.rnd.Intn(100)
 	if r < closeWeight {
 		return cOp{Op: lClose}
@@ -124,10 +144,12 @@ func (g *condGen) randOp(closeWeight int) cOp {
 			return cOp{Op: lAddPrior, X: g.item()}
 		case r < 78:
 			return cOp{Op: lAddCtrl, X: g.item()}
-		case r < 88:
+		case r < 86:
 			return cOp{Op: lAddPriorCtrl, X: g.item()}
-		default:
+		case r < 94:
 			return cOp{Op: lTryClose}
+		default:
+			return cOp{Op: lTryClear}
 		}
 	}
 	if r < 75 {
@@ -202,7 +224,9 @@ func (g *condGen) park(k int, together bool) {
 	g.exec(b)
 }
 
-func (g *condGen) addOp() cOp {
+func (g *condGen) addOp() cOp { return g.maybeAnyway(g.addOp0()) }
+
+func (g *condGen) addOp0() cOp {
 	r := g.rnd.Intn(100)
 	switch {
 	case g.kind == kSync || r < 60:
@@ -245,7 +269,7 @@ func (g *condGen) adds(m int, mode int) {
 	}
 }
 
-var condScenarios = []string{"random", "park-close", "park-add", "drain-after-close", "bound", "close-race", "steal", "tryclose", "add-close-burst", "add-close-burst", "park-add-nil", "park-add-nil"}
+var condScenarios = []string{"random", "park-close", "park-add", "drain-after-close", "bound", "close-race", "steal", "tryclose", "add-close-burst", "add-close-burst", "park-add-nil", "park-add-nil", "anyway-full", "anyway-full"}
 
 func (g *condGen) scenario(name string) {
 	rnd := g.rnd
@@ -347,6 +371,51 @@ func (g *condGen) scenario(name string) {
 		if rnd.Intn(2) == 0 {
 			g.random(2)
 		}
+	case "anyway-full":
+		// the retrying adds on a FULL bounded queue: AddReqAnyway / AddAnyway / AddCtrlAnyway keep trying until a
+		// consumer has made room (a consumer is launched in the same batch) or the queue is closed (ErrClosed)
+		if g.kind == kSync {
+			g.random(6)
+			return
+		}
+		ctrl := g.kind == kMQ && g.run.cfg.CtrlMax > 0 && rnd.Intn(2) == 0
+		bound, addKind := g.run.cfg.ReqMax, lAdd
+		if ctrl {
+			bound, addKind = g.run.cfg.CtrlMax, lAddCtrl
+		}
+		var fill []cOp
+		for i := 0; i < bound; i++ {
+			fill = append(fill, cOp{Op: addKind, X: g.item()})
+		}
+		fill = append(fill, cOp{Op: addKind, X: g.item()}) // refused: full
+		g.exec(cBatch{Lanes: [][]cOp{fill}})
+		switch rnd.Intn(4) {
+		case 0, 1:
+			// full and open: the retrying add and a consumer side by side
+			if la, ok := g.launch(rnd.Intn(2) == 0); ok {
+				g.exec(cBatch{Launches: []cLaunch{la}, Lanes: [][]cOp{{{Op: addKind, X: g.item(), Anyway: true}}}})
+			}
+		case 2:
+			// full, then closed: the retrying add gives up with ErrClosed
+			g.exec(cBatch{Lanes: [][]cOp{{{Op: lClose}}}})
+			g.exec(cBatch{Lanes: [][]cOp{{{Op: addKind, X: g.item(), Anyway: true}}}})
+		default:
+			// full: the retrying add and Close side by side
+			g.exec(cBatch{Lanes: [][]cOp{{{Op: addKind, X: g.item(), Anyway: true}}, {{Op: lClose}}}})
+		}
+		// consumers drain; more retrying adds while there is room
+		for i := 0; i < 2; i++ {
+			if la, ok := g.launch(true); ok {
+				g.exec(cBatch{Launches: []cLaunch{la}})
+			}
+		}
+		if !g.closed {
+			g.park(1+rnd.Intn(2), true)
+			g.exec(cBatch{Lanes: [][]cOp{{{Op: addKind, X: g.item(), Anyway: true}}}})
+		}
+		if g.kind == kMQ {
+			g.exec(cBatch{Lanes: [][]cOp{{{Op: lTryClear}}}})
+		}
 	case "add-close-burst":
 		// k >= 2 consumers parked, then an add immediately followed by Close, back to back from one goroutine: the
 		// consumer the add woke has usually not run when Close arrives, so Close finds a non-empty queue
@@ -388,10 +457,12 @@ func (g *condGen) scenario(name string) {
 		if rnd.Intn(2) == 0 {
 			g.adds(1+rnd.Intn(2), 0)
 		}
+		g.exec(cBatch{Lanes: [][]cOp{{{Op: lTryClear}}}}) // open (or not yet drained): false
 		g.exec(cBatch{Lanes: [][]cOp{{{Op: lTryClose}}}})
 		g.park(1, false)
-		g.exec(cBatch{Lanes: [][]cOp{{{Op: lTryClose}}}})
+		g.exec(cBatch{Lanes: [][]cOp{{{Op: lTryClose}, {Op: lTryClear}}}})
 		g.random(2)
+		g.exec(cBatch{Lanes: [][]cOp{{{Op: lTryClear}}}})
 	}
 }
 
@@ -410,7 +481,7 @@ func emitCond(e *vh.Env, g *condGen, scen string) {
 }
 
 func condReqMax(rnd *rand.Rand, scen string) int {
-	if scen == "bound" {
+	if scen == "bound" || scen == "anyway-full" {
 		return 1 + rnd.Intn(3)
 	}
 	return []int{0, 0, 0, 1, 2, 3}[rnd.Intn(6)]
